@@ -419,7 +419,10 @@ def St.rrLoop (s : St) (x : String) (fuel : Nat) (i : Int) : St × Bool :=
   | fuel+1 =>
     if i > s.lastRound then (s, false) else
     match s.getRound i with
-    | none => (s, false)      -- Go: `break` on a missing round (cf. D17)
+    | none =>                 -- a missing round at or below the fast-sync lower bound is skipped, else `break`
+      (match s.lowerBound with
+       | none => (s, false)
+       | some lb => if lb < i then (s, false) else s.rrLoop x fuel (i+1))
     | some tr =>
       let tps := s.peersAt i
       let (d, tr') := tr.witnessesDecided tps
@@ -609,7 +612,9 @@ def frameEvLe (x y : FrameEv × Ev) : Bool :=
     `lookup` supplies the core event of each frame event (the frame ships them). -/
 def resetFrom (blk : Block) (fr : Frame) (lookup : String → Option Ev) : St :=
   let rep := fr.peerSets.foldl (fun rep p => p.2.foldl addRep rep) []
-  let b0 : St := { peerSets := fr.peerSets, validators := fr.peers, repertoire := rep }
+  -- core.fastForward: validators = the most recent entry of the shipped history above the frame's round, else frame.Peers
+  let later := fr.peerSets.filter (fun p => decide (p.1 > fr.round))
+  let b0 : St := { peerSets := fr.peerSets, validators := ((later.getLast?).map (·.2)).getD fr.peers, repertoire := rep }
   let all := (fr.roots.map (·.2)).flatten ++ fr.events
   let withSrc := all.filterMap (fun fe => (lookup fe.id).map (fun e => (fe, e)))
   let sorted := withSrc.mergeSort frameEvLe
